@@ -99,10 +99,12 @@ def nesting_path(stmts):
             if n.is_group:
                 for c in n.tokens: st.append((c, d + 1))
     depth, n = best
-    first = later = 0
+    first = later = below = 0
     while n is not None and n.parent is not None:
         p = n.parent
-        if isinstance(p, sql.IdentifierList) and n.is_group:
+        below += 1
+        # (the innermost operand — `a` in the last `a, 1` — is not part of the nesting: only lists with at least four levels beneath them on the path count)
+        if isinstance(p, sql.IdentifierList) and n.is_group and below >= 4:
             if any(t.ttype is T.Punctuation and t.value == ',' for t in p.tokens[:p.tokens.index(n)]): later += 1
             else: first += 1
         n = p
@@ -168,16 +170,16 @@ for kind, depth, limit, entry, opts in cases:
                         pass
         elif entry == 'parse':
             r = sqlparse.parse(text); res = 'ok'
-            if ''.join(str(s) for s in r).strip() != text.strip(): res = 'bad-roundtrip'
+            uc = user_calls(r)          # (first: everything below serialises the statements, which is a user call itself)
+            if uc:
+                res = 'RecursionError-in-user-call:' + uc
+                sys.setrecursionlimit(max(20000, 8 * limit))
+                info = nesting_path(r)
+                sys.setrecursionlimit(limit)
+            elif ''.join(str(s) for s in r).strip() != text.strip(): res = 'bad-roundtrip'
             elif not all(wf(s) and s.value == str(s) for s in r): res = 'ill-formed-tree'
             else:
-                uc = user_calls(r)
-                if uc:
-                    res = 'RecursionError-in-user-call:' + uc
-                    sys.setrecursionlimit(max(20000, 8 * limit))
-                    info = nesting_path(r)
-                    sys.setrecursionlimit(limit)
-                elif sys.getrecursionlimit() != limit: res = 'recursion-limit-changed:%%d' %% sys.getrecursionlimit()
+                if sys.getrecursionlimit() != limit: res = 'recursion-limit-changed:%%d' %% sys.getrecursionlimit()
                 elif limit <= 1000:
                     # the tree built close to the limit is the tree built with plenty of stack (limits up to 1000: beyond, the second parse is too slow)
                     sys.setrecursionlimit(max(20000, 8 * limit))
@@ -195,7 +197,15 @@ for kind, depth, limit, entry, opts in cases:
             for k in range(5):
                 try:
                     s1 = next(g)
-                    got.append(str(s1))
+                    try:
+                        got.append(str(s1))
+                    except RecursionError:
+                        # the statement came back, the caller's own str() overflows
+                        res = 'RecursionError-in-user-call:str'
+                        sys.setrecursionlimit(max(20000, 8 * limit))
+                        info = nesting_path([s1])
+                        sys.setrecursionlimit(limit)
+                        break
                     if not wf(s1): res = 'ill-formed-tree'
                 except StopIteration:
                     break
@@ -226,7 +236,13 @@ for kind, depth, limit, entry, opts in cases:
             if sys.getrecursionlimit() != limit: res = 'recursion-limit-changed:%%d' %% sys.getrecursionlimit()
         elif entry == 'parsestream':
             r = list(sqlparse.parsestream(io.StringIO(text))); res = 'ok'
-            if ''.join(str(s) for s in r).strip() != text.strip(): res = 'bad-roundtrip'
+            uc = user_calls(r)
+            if uc:
+                res = 'RecursionError-in-user-call:' + uc
+                sys.setrecursionlimit(max(20000, 8 * limit))
+                info = nesting_path(r)
+                sys.setrecursionlimit(limit)
+            elif ''.join(str(s) for s in r).strip() != text.strip(): res = 'bad-roundtrip'
             elif not all(wf(s) and s.value == str(s) for s in r): res = 'ill-formed-tree'
         elif entry == 'split':
             r = sqlparse.split(text); res = 'ok'
@@ -281,6 +297,7 @@ def run(ctx):
     cases = []
     limits = [200, 500, 1000] if ctx.quick() else [200, 500, 1000, 3000]
     for limit in limits:
+        between = {kind: rng.choice([2 * limit // 5, 11 * limit // 20]) for kind in KINDS_LISTS}
         for kind in KINDS + KINDS_LISTS:
             # (2/5 and 11/20 of the limit: between "everything fits" and "grouping overflows" — there a tree can come back that a traversal cannot walk)
             for depth in sorted({3, limit // 20, limit // 8, limit // 4, 2 * limit // 5, limit // 2, 11 * limit // 20, limit, 2 * limit}):
@@ -289,9 +306,13 @@ def run(ctx):
                     opts = rng.choice(OPTS) if entry == 'format' else ({'argv': rng.choice([[], ['-r'], ['-k', 'upper', '-s']])} if entry == 'cli' else {})
                     if entry in ('cli', 'lazy') and (limit >= 1000 or depth > limit):
                         continue      # (slow, and the depth scan at limit 80 covers these entry points at every depth)
-                    if ctx.quick() and rng.random() < 0.6:
+                    if ctx.quick() and rng.random() < 0.6 and not (kind in KINDS_LISTS and limit >= 1000):
                         continue
                     if depth > 1500 and kind in ('ops', 'list', 'mixed', 'subquery', 'case', 'rsub', 'lsub', 'rcase', 'lcase'):
+                        continue
+                    if kind in KINDS_LISTS and ((limit >= 500 and depth >= limit) or (limit >= 1000 and (ctx.quick() or limit > 1000) and (entry != 'parse' or depth != between[kind]))):
+                        # (str() of a list is taken at every nesting step: tens of seconds per case at these depths.  Depths from the limit on are covered at
+                        # limit 200 and by the depth scan; quick tier at limit 1000 and every tier at limit 3000: parse at one of the two in-between depths, drawn per kind)
                         continue
                     cases.append((kind, depth, limit, entry, opts))
     # every depth around the point where a low recursion limit starts to bite: which frame overflows first (a pass, a constructor, a filter between
@@ -308,7 +329,7 @@ def run(ctx):
             if not ctx.quick() or (depth + ki) % 9 == 0:
                 cases.append((kind, depth, SCAN_LIMIT, 'cli', {'argv': [[], ['-r']][depth % 2]}))
             for oi, opts in enumerate(scan_opts):
-                if ctx.quick() and (depth + ki + oi) % 5:
+                if ctx.quick() and (depth + ki + oi) % (10 if kind in KINDS_LISTS else 5):
                     continue
                 cases.append((kind, depth, SCAN_LIMIT, 'format', opts))
     cases.append(('paren', 400, 200, 'soak', {}))
@@ -318,7 +339,9 @@ def run(ctx):
     # the soak is one long case: a subprocess of its own, started first
     soaks = [c for c in cases if c[3] == 'soak']
     rest = [c for c in cases if c[3] != 'soak']
-    chunks = ([soaks] if soaks else []) + [rest[i::k] for i in range(k)]
+    # twice as many subprocesses as workers, the expensive cases (deep, high limit) dealt out evenly: the slowest subprocess decides the wall time
+    rest.sort(key=lambda c: -(min(c[1], c[2]) * c[2]) if c[2] >= 500 else 0)      # (stable: the cheap cases keep their order)
+    chunks = ([soaks] if soaks else []) + [rest[i::2 * k] for i in range(2 * k)]
     def go(chunk):
         src = SCRIPT % {'repo': REPO, 'cases': chunk}
         try:
